@@ -84,54 +84,107 @@ def _is_sanitised_elt(e, san):
 
 
 def rule_json_nan(ctx):
+    """source-based: wherever a method of the encoder class reads curve samples (`<curve>.data`) or header values
+    (`<section>.dictview()`), each element must pass the NaN->None map before it is placed in the document, on a path that does
+    not depend on the dtype of the data"""
     p = ctx.p
-    fi = p.func(ENC)
+    fi0 = p.func(ENC)
+    cls = fi0.cls
     san = _sanitisers(p)
-    cfg = build_cfg(p, fi)
-    cd = ControlDependence(cfg)
-    n = 0
-    seen = {"data": False, "metadata": False}
-    for node in cfg.nodes:
-        a = node.ast
-        if node.kind != "stmt" or not isinstance(a, ast.Assign) or not isinstance(a.targets[0], ast.Subscript):
-            continue
-        t = a.targets[0]
-        base = t.value
-        if not (isinstance(base, ast.Subscript) and isinstance(base.slice, ast.Constant) and base.slice.value in ("data", "metadata")):
-            continue
-        kind = base.slice.value
-        v = a.value
-        # string sections are copied verbatim
-        if kind == "metadata" and isinstance(v, ast.Name):
-            continue
-        n += 1
+    methods = [m for m in cls.methods.values() if m.name not in san]
+    found = {"data": [], "metadata": []}
+
+    def kind_of_source(e):
+        """'data' for <x>.data (x not self) possibly wrapped in list()/tolist()/np.asarray(); 'metadata' for
+        <x>.dictview() / .dictview().items()/values()"""
+        cur = e
+        while True:
+            if isinstance(cur, ast.Call) and isinstance(cur.func, ast.Attribute) and cur.func.attr in ("items", "values", "tolist", "iteritems", "copy"):
+                cur = cur.func.value
+            elif isinstance(cur, ast.Call) and isinstance(cur.func, ast.Name) and cur.func.id in ("list", "tuple", "iter", "enumerate") and cur.args:
+                cur = cur.args[0]
+            elif isinstance(cur, ast.Call) and ast.unparse(cur.func) in ("np.asarray", "np.array", "numpy.asarray") and cur.args:
+                cur = cur.args[0]
+            else:
+                break
+        if isinstance(cur, ast.Attribute) and cur.attr == "data" and not (isinstance(cur.value, ast.Name) and cur.value.id == "self"):
+            return "data"
+        if isinstance(cur, ast.Call) and isinstance(cur.func, ast.Attribute) and cur.func.attr == "dictview":
+            return "metadata"
+        return None
+
+    def dtype_conditions(m, node):
+        out = []
+        cur, child = getattr(node, "_parent", None), node
+        while cur is not None and cur is not m.node:
+            if isinstance(cur, ast.If) and any(x in ast.unparse(cur.test) for x in ("dtype", "kind", "issubdtype")):
+                out.append(cur.test)
+            if isinstance(cur, ast.IfExp) and any(x in ast.unparse(cur.test) for x in ("dtype", "kind", "issubdtype")):
+                out.append(cur.test)
+            child, cur = cur, getattr(cur, "_parent", None)
+        return out
+
+    for m in methods:
+        consumed = set()
+        for sub in ast.walk(m.node):
+            if isinstance(sub, (ast.ListComp, ast.DictComp, ast.GeneratorExp, ast.SetComp)) and len(sub.generators) == 1:
+                g = sub.generators[0]
+                kind = kind_of_source(g.iter)
+                if kind is None:
+                    continue
+                for x in ast.walk(g.iter):
+                    consumed.add(id(x))
+                elt = sub.value if isinstance(sub, ast.DictComp) else sub.elt
+                ok = _is_sanitised_elt(elt, san) and not g.ifs
+                found[kind].append((m, sub, ok, "elements are `%s`" % unparse(elt), dtype_conditions(m, sub)))
+        for sub in ast.walk(m.node):
+            if id(sub) in consumed:
+                continue
+            kind = kind_of_source(sub) if isinstance(sub, (ast.Attribute, ast.Call)) else None
+            if kind is None:
+                continue
+            par = getattr(sub, "_parent", None)
+            # part of a larger source expression handled at its root
+            if par is not None and kind_of_source(par) == kind and isinstance(par, (ast.Call, ast.Attribute)):
+                continue
+            if isinstance(par, ast.For) and par.iter is sub:
+                # explicit loop: every store of the element must be sanitised
+                names = {n.id for n in ast.walk(par.target) if isinstance(n, ast.Name)}
+                stores = [c for st in par.body for c in ast.walk(st) if isinstance(c, ast.Call) and isinstance(c.func, ast.Attribute)
+                          and c.func.attr == "append"]
+                stores_ok = all(c.args and _is_sanitised_elt(c.args[0], san) for c in stores)
+                assigns = [a for st in par.body for a in ast.walk(st) if isinstance(a, ast.Assign) and isinstance(a.targets[0], ast.Subscript)
+                           and any(isinstance(n, ast.Name) and n.id in names for n in ast.walk(a.value))]
+                assigns_ok = all(_is_sanitised_elt(a.value, san) for a in assigns)
+                found[kind].append((m, par, bool(stores or assigns) and stores_ok and assigns_ok, "loop body stores the element",
+                                    dtype_conditions(m, par)))
+                continue
+            if kind == "data" and isinstance(par, ast.Attribute) and par.attr in ("dtype", "shape", "size", "ndim"):
+                continue
+            if kind == "data" and isinstance(par, ast.Call) and isinstance(par.func, ast.Name) and par.func.id in ("len", "isinstance"):
+                continue
+            found[kind].append((m, sub, False, "`%s` is placed in the document as is" % unparse(par if par is not None else sub),
+                                dtype_conditions(m, sub)))
+    for kind in ("data", "metadata"):
         site = "%s#%s" % (ENC, kind)
-        ok = False
-        why = ""
-        if isinstance(v, ast.ListComp) and len(v.generators) == 1 and not v.generators[0].ifs:
-            ok = _is_sanitised_elt(v.elt, san)
-            why = "elements are `%s`" % unparse(v.elt)
-        elif isinstance(v, ast.DictComp) and len(v.generators) == 1 and not v.generators[0].ifs:
-            ok = _is_sanitised_elt(v.value, san)
-            why = "values are `%s`" % unparse(v.value)
-        else:
-            why = "`%s` is placed in the document as is" % unparse(v)
-        # must not be conditional on the data (dtype fast paths)
-        tests = [cfg.nodes[tn].ast for (tn, lab) in cd.transitive(node.id) if cfg.nodes[tn].kind == "test"]
-        dataconds = [t_ for t_ in tests if any(x in ast.unparse(t_) for x in ("dtype", "kind", "issubdtype"))]
-        if ok and not dataconds:
-            seen[kind] = True
-            ctx.ok("EX.JSON-NAN", site, fi, a, "every %s placed in the document passes the NaN->None map (%s)" % (
-                "curve sample" if kind == "data" else "header value", why))
-        elif ok and dataconds:
-            # another branch must exist for the other dtype: find sibling stores without the map
-            ctx.ok("EX.JSON-NAN", site + ":cond", fi, a, "sanitised branch under `%s`" % unparse(dataconds[0]), nontrivial=False)
-        else:
-            ctx.bad("EX.JSON-NAN", site, fi, a, "%s without the NaN->None map (%s): a NaN there is written as the bare token NaN, "
-                    "which strict JSON parsers reject" % ("curve samples are exported" if kind == "data" else "header values are exported", why))
-    for kind, ok in seen.items():
-        if not ok and not any(not i.ok and i.site.startswith("%s#%s" % (ENC, kind)) for i in ctx.instances):
-            ctx.bad("EX.JSON-NAN", "%s#%s" % (ENC, kind), fi, fi.node, "no unconditional, NaN-sanitised export of the %s" % kind)
+        what = "curve sample" if kind == "data" else "header value"
+        occ = found[kind]
+        if not occ:
+            ctx.undecided("EX.JSON-NAN", site, fi0, fi0.node, "no read of %s found in the methods of %s" % (
+                "<curve>.data" if kind == "data" else "<section>.dictview()", cls.name))
+            continue
+        uncond_ok = False
+        for (m, node, ok, why, conds) in occ:
+            if ok and not conds:
+                uncond_ok = True
+                ctx.ok("EX.JSON-NAN", site, m, node, "every %s placed in the document passes the NaN->None map (%s)" % (what, why))
+            elif ok:
+                ctx.ok("EX.JSON-NAN", site + ":cond", m, node, "sanitised branch under `%s`" % unparse(conds[0]), nontrivial=False)
+            else:
+                ctx.bad("EX.JSON-NAN", site, m, node, "%ss are exported without the NaN->None map (%s): a NaN there is written as the "
+                        "bare token NaN, which strict JSON parsers reject" % (what, why))
+        if not uncond_ok and not any(not ok for (_, _, ok, _, _) in occ):
+            ctx.bad("EX.JSON-NAN", site, fi0, fi0.node, "no unconditional, NaN-sanitised export of the %s" % kind)
     ctx.floor("EX.JSON-NAN", 2)
 
 
@@ -189,6 +242,63 @@ def _coeff(expr):
         raise AnalysisError("cannot fold depth conversion `%s`: %s" % (unparse(expr), e))
 
 
+def _table_branches(p, fm):
+    """table form of the conversions: a module-level tuple/list of rows, each row holding one unit code (str constant) and
+    two one-parameter lambdas (to metres / to feet, told apart by the 'M' row: metres is the identity there).
+    -> (bm, bf) in the same shape as _branches, or None"""
+    mod = fm.module
+    for nm, vals in mod.globals.items():
+        if len(vals) != 1 or not isinstance(vals[0], (ast.Tuple, ast.List)) or len(vals[0].elts) < 2:
+            continue
+        rows = []
+        for row in vals[0].elts:
+            if isinstance(row, (ast.Tuple, ast.List)):
+                cells = list(row.elts)
+            elif isinstance(row, ast.Call):
+                cells = list(row.args) + [k.value for k in row.keywords]
+            else:
+                rows = None
+                break
+            codes = [c for c in cells if isinstance(c, ast.Constant) and isinstance(c.value, str)]
+            lams = [c for c in cells if isinstance(c, ast.Lambda) and len(c.args.args) == 1]
+            if len(codes) != 1 or len(lams) != 2 or len(cells) != 3:
+                rows = None
+                break
+            rows.append((codes[0].value, lams))
+        if not rows:
+            continue
+        # the table must be the one the depth properties use
+        used = {x.id for f in mod.functions.values() for x in ast.walk(f.node) if isinstance(x, ast.Name)} | {
+            x.id for c in mod.classes.values() for m in c.methods.values() for x in ast.walk(m.node) if isinstance(x, ast.Name)}
+        if nm not in used:
+            continue
+
+        def lam_expr(lam):
+            par = lam.args.args[0].arg
+
+            class R(ast.NodeTransformer):
+                def visit_Name(self, node):
+                    if node.id == par:
+                        return ast.copy_location(ast.Attribute(value=ast.Name(id="self", ctx=ast.Load()), attr="index", ctx=ast.Load()), node)
+                    return node
+            import copy as _copy
+            return ast.fix_missing_locations(R().visit(_copy.deepcopy(lam.body)))
+        mrow = next((r for r in rows if r[0] == "M"), None)
+        if mrow is None:
+            return None
+        try:
+            k0, k1 = _coeff(lam_expr(mrow[1][0])), _coeff(lam_expr(mrow[1][1]))
+        except AnalysisError:
+            return None
+        mi = 0 if abs(k0 - 1.0) < 1e-12 else (1 if abs(k1 - 1.0) < 1e-12 else None)
+        if mi is None:
+            return None
+        bm = [(c, lam_expr(l[mi])) for c, l in rows]
+        bf = [(c, lam_expr(l[1 - mi])) for c, l in rows]
+        return bm, bf
+    return None
+
+
 def rule_depth(ctx):
     p = ctx.p
     fm = p.func(LF + ".depth_m")
@@ -196,9 +306,19 @@ def rule_depth(ctx):
     bm, bf = _branches(fm), _branches(ff)
     site = LF + "#depth-algebra"
     problems = []
-    if [c for c, _ in bm] != [c for c, _ in bf]:
+    table_form = False
+    if not bm and not bf:
+        tb = _table_branches(p, fm)
+        if tb is None:
+            ctx.undecided("EX.DEPTH-ALGEBRA", site, fm, fm.node, "depth_m/depth_ft are neither an if-chain over _index_unit_contains(<code>) "
+                          "nor driven by a table of (code, to-metres, to-feet) rows")
+            bm = bf = None
+        else:
+            bm, bf = tb
+            table_form = True
+    if bm is not None and [c for c, _ in bm] != [c for c, _ in bf]:
         problems.append("depth_m tests the unit codes %s, depth_ft %s: the two views branch differently" % ([c for c, _ in bm], [c for c, _ in bf]))
-    else:
+    if bm is not None and [c for c, _ in bm] == [c for c, _ in bf]:
         for (c, em), (_, ef) in zip(bm, bf):
             km, kf = _coeff(em), _coeff(ef)
             if abs(km - kf * 0.3048) > 1e-12 * max(1.0, abs(km)):
@@ -209,11 +329,19 @@ def rule_depth(ctx):
             if c in want and abs(_coeff(em) - want[c]) > 1e-12:
                 problems.append("depth_m for unit %r multiplies by %.9g, expected %.9g" % (c, _coeff(em), want[c]))
     for fi in (fm, ff):
-        if not any(isinstance(s, ast.Raise) and "LASUnknownUnitError" in ast.unparse(s) for s in walk_shallow(fi.node)):
+        bodies = [fi] + [m for c in walk_shallow(fi.node) if isinstance(c, ast.Call) and isinstance(c.func, ast.Attribute)
+                         and isinstance(c.func.value, ast.Name) and c.func.value.id == "self" and c.func.attr.startswith("_")
+                         for m in [fi.cls.find_method(c.func.attr)] if m is not None]
+        if not any(isinstance(s, ast.Raise) and "LASUnknownUnitError" in ast.unparse(s) for b in bodies for s in walk_shallow(b.node)):
             problems.append("%s does not raise LASUnknownUnitError for an undefined index unit" % fi.name)
-    ctx.check(not problems, "EX.DEPTH-ALGEBRA", site, fm, fm.node,
-              "depth_m and depth_ft pair branch by branch (%s) and satisfy depth_m = depth_ft x 0.3048 exactly" % [c for c, _ in bm],
-              "; ".join(problems))
+    if bm is None:
+        if problems:
+            ctx.bad("EX.DEPTH-ALGEBRA", site, fm, fm.node, "; ".join(problems))
+    else:
+        ctx.check(not problems, "EX.DEPTH-ALGEBRA", site, fm, fm.node,
+                  "depth_m and depth_ft pair %s (%s) and satisfy depth_m = depth_ft x 0.3048 exactly" % (
+                      "row by row of the conversion table" if table_form else "branch by branch", [c for c, _ in bm]),
+                  "; ".join(problems))
     # table: each key of DEPTH_UNITS selects exactly one branch, in both views
     env0 = module_env(p, "defaults")
     try:
@@ -226,7 +354,9 @@ def rule_depth(ctx):
         raise AnalysisError("_index_unit_contains has %d returns" % len(rets))
     codep = fc.params()[1]
     problems = []
-    for key in table:
+    if bm is None:
+        ctx.undecided("EX.DEPTH-TABLE", LF + "#unit-branches", fm, fm.node, "conversion branches not in a recognised form")
+    for key in (table if bm is not None else ()):
         hits = []
         for c, _ in bm:
             def env(name, key=key, c=c):
@@ -245,7 +375,8 @@ def rule_depth(ctx):
             problems.append("index unit %r selects no branch of depth_m/depth_ft" % key)
         elif expect and bm[first][0] != expect:
             problems.append("index unit %r selects the %r branch (expected %r)" % (key, bm[first][0], expect))
-    ctx.check(not problems, "EX.DEPTH-TABLE", LF + "#unit-branches", fm, fm.node,
+    if bm is not None:
+        ctx.check(not problems, "EX.DEPTH-TABLE", LF + "#unit-branches", fm, fm.node,
               "each key of DEPTH_UNITS (%s) selects its own conversion branch" % sorted(table), "; ".join(problems))
     # detection test in read(): every tabulated spelling is recognised; ASCII spellings in either case
     from rules.common import host_unit_detection
@@ -299,11 +430,17 @@ def rule_depth(ctx):
               "every spelling tabulated in DEPTH_UNITS is recognised (ASCII spellings in any case) and none is recognised as another unit",
               "; ".join(list(dict.fromkeys(problems))[:4]))
     # conflict -> None ; single -> that unit
+    # the result goes to self.index_unit directly or through a result name (`self.index_unit = r`)
+    rnames = {a.value.id for a in walk_shallow(fr.node) if isinstance(a, ast.Assign) and isinstance(a.value, ast.Name)
+              and any(isinstance(t, ast.Attribute) and t.attr == "index_unit" for t in a.targets)}
+
+    def is_result(t):
+        return (isinstance(t, ast.Attribute) and t.attr == "index_unit") or (isinstance(t, ast.Name) and t.id in rnames)
     single = [x for x in walk_shallow(fr.node) if isinstance(x, ast.If) and isinstance(x.test, ast.Compare) and len(x.test.ops) == 1
               and isinstance(x.test.ops[0], ast.Eq) and isinstance(x.test.left, ast.Call) and ast.unparse(x.test.left.func) == "len"
               and isinstance(x.test.comparators[0], ast.Constant) and x.test.comparators[0].value == 1
-              and any(isinstance(a, ast.Assign) and any(isinstance(t, ast.Attribute) and t.attr == "index_unit" for t in a.targets) for a in x.body)]
-    nones = [a for a in walk_shallow(fr.node) if isinstance(a, ast.Assign) and any(isinstance(t, ast.Attribute) and t.attr == "index_unit" for t in a.targets)
+              and any(isinstance(a, ast.Assign) and any(is_result(t) for t in a.targets) for a in x.body)]
+    nones = [a for a in walk_shallow(fr.node) if isinstance(a, ast.Assign) and any(is_result(t) for t in a.targets)
              and isinstance(a.value, ast.Constant) and a.value.value is None]
     ok = bool(single) and len(nones) >= 2
     ctx.check(ok, "EX.DEPTH-TABLE", LF + ".read#conflict", fr, loop, "one match defines the unit, none or several leave it undefined",
@@ -318,6 +455,7 @@ def rule_csv(ctx):
     cfg = build_cfg(p, fi)
     cd = ControlDependence(cfg)
     rows = []
+    undecided = []
     for node in cfg.nodes:
         if node.ast is None or node.kind != "stmt":
             continue
@@ -325,16 +463,53 @@ def rule_csv(ctx):
             if isinstance(c, ast.Call) and isinstance(c.func, ast.Attribute) and c.func.attr == "writerow" and c.args:
                 tests = [(cfg.nodes[tn].ast, lab.startswith("true")) for (tn, lab) in cd.transitive(node.id)
                          if cfg.nodes[tn].kind == "test"]
-                rows.append((node, c, tests))
+                names = set()
+                for t, pol in tests:
+                    names |= {n.id for n in ast.walk(t) if isinstance(n, ast.Name)}
+                # rows produced by a generator of the module: `for row in _gen(mnemonics, units, units_loc): writerow(row)`
+                lp = enclosing(c, (ast.For,))
+                a0 = c.args[0]
+                if (isinstance(a0, ast.Name) and lp is not None and isinstance(lp.target, ast.Name) and lp.target.id == a0.id
+                        and isinstance(lp.iter, ast.Call) and isinstance(lp.iter.func, ast.Name)):
+                    g = fi.module.functions.get(lp.iter.func.id)
+                    if g is None or not any(isinstance(y, ast.Yield) for y in ast.walk(g.node)):
+                        undecided.append("rows come from `%s`" % unparse(lp.iter))
+                        continue
+                    gp = g.params()
+                    ren = {}
+                    for pn, av in zip(gp, lp.iter.args):
+                        if isinstance(av, ast.Name):
+                            ren[pn] = av.id
+                    gcfg = build_cfg(p, g)
+                    gcd = ControlDependence(gcfg)
+                    for gn in gcfg.nodes:
+                        if gn.ast is None or gn.kind != "stmt":
+                            continue
+                        for y in walk_expr_shallow(gn.ast):
+                            if isinstance(y, ast.Yield) and y.value is not None:
+                                gnames = set()
+                                for (tn, lab) in gcd.transitive(gn.id):
+                                    if gcfg.nodes[tn].kind == "test":
+                                        gnames |= {ren.get(n.id, n.id) for n in ast.walk(gcfg.nodes[tn].ast) if isinstance(n, ast.Name)}
+                                yv = y.value
+                                txt = ren.get(yv.id, yv.id) if isinstance(yv, ast.Name) else ast.unparse(yv)
+                                rows.append((gn, c, names | gnames, txt, yv))
+                    continue
+                rows.append((node, c, names, ast.unparse(a0), a0))
     site = LF + ".to_csv"
     problems = []
     kinds = {}
-    for node, c, tests in rows:
-        arg = ast.unparse(c.args[0])
-        names = set()
-        for t, pol in tests:
-            names |= {n.id for n in ast.walk(t) if isinstance(n, ast.Name)}
-        names -= {"opened_file"}
+    if undecided:
+        ctx.undecided("EX.CSV", site, fi, fi.node, "; ".join(undecided))
+        return
+    import re as _re
+
+    def base(nm):
+        # locals of an inlined private helper carry a `__<helper><k>` tag (sa/normalize.py)
+        return _re.sub(r"__[A-Za-z_]+\d+$", "", nm)
+    for node, c, names, arg, argnode in rows:
+        names = {base(x) for x in names} - {"opened_file"}
+        arg = base(arg)
         if arg == "mnemonics":
             kinds["mnemonics"] = names
             if "mnemonics" not in names:
@@ -351,9 +526,9 @@ def rule_csv(ctx):
             lp = enclosing(c, (ast.For,))
             if lp is None or "self.data.shape[0]" not in ast.unparse(lp.iter) or "range" not in ast.unparse(lp.iter):
                 problems.append("data records are not written for i in range(self.data.shape[0])")
-            elif not (isinstance(c.args[0], ast.Subscript) and isinstance(c.args[0].slice, ast.Tuple)
-                      and isinstance(c.args[0].slice.elts[0], ast.Name) and isinstance(c.args[0].slice.elts[1], ast.Slice)
-                      and c.args[0].slice.elts[1].lower is None and c.args[0].slice.elts[1].upper is None):
+            elif not (isinstance(argnode, ast.Subscript) and isinstance(argnode.slice, ast.Tuple)
+                      and isinstance(argnode.slice.elts[0], ast.Name) and isinstance(argnode.slice.elts[1], ast.Slice)
+                      and argnode.slice.elts[1].lower is None and argnode.slice.elts[1].upper is None):
                 problems.append("a data record is `%s`, not the full row self.data[i, :]" % arg)
             if names - {"i"}:
                 problems.append("data records are written only under %s" % sorted(names))
@@ -371,9 +546,30 @@ def rule_csv(ctx):
     ctx.floor("EX.CSV", 1)
 
 
+def _cell_writers(p):
+    """names of the functions of lasio/excel.py (nested or module level) that set one cell: `sh.cell(row=, column=)`"""
+    out = set()
+    for q, f in p.functions.items():
+        if f.module.name == "excel" and not isinstance(f.node, ast.Lambda) and f.name != "generate_workbook":
+            if any(isinstance(c, ast.Call) and isinstance(c.func, ast.Attribute) and c.func.attr == "cell" for c in walk_shallow(f.node)) \
+                    and len(f.params()) == 4:
+                out.add(f.name)
+    return out
+
+
 def rule_xlsx(ctx):
     p = ctx.p
     fi = p.func("excel.ExcelConverter.generate_workbook")
+    writers = _cell_writers(p)
+    if not writers:
+        ctx.undecided("EX.XLSX-SECTIONS", fi.qual, fi, fi.node, "no (sheet, row, column, value) cell-writer function found in lasio/excel.py")
+        return
+
+    def is_write(c):
+        if not (isinstance(c, ast.Call) and len(c.args) == 4):
+            return False
+        nm = c.func.id if isinstance(c.func, ast.Name) else (c.func.attr if isinstance(c.func, ast.Attribute) else None)
+        return nm in writers
     problems = []
     secs = None
     for s in walk_shallow(fi.node):
@@ -387,17 +583,20 @@ def rule_xlsx(ctx):
         if set(got) != want:
             problems.append("the Header sheet lists %s; it must list every item of ~Version, ~Well, ~Parameter and ~Curves" % got)
     fields = set()
+    counter = None
     for c in walk_shallow(fi.node):
-        if isinstance(c, ast.Call) and isinstance(c.func, ast.Name) and c.func.id == "write_cell" and len(c.args) == 4:
+        if is_write(c):
             v = c.args[3]
-            if isinstance(v, ast.Attribute) and isinstance(v.value, ast.Name) and v.value.id == "item":
+            if isinstance(v, ast.Attribute) and isinstance(v.value, ast.Name) and v.attr in ("mnemonic", "unit", "value", "descr") \
+                    and isinstance(c.args[1], ast.Name):
                 fields.add((ast.unparse(c.args[2]), v.attr))
+                counter = c.args[1].id
     want_f = {("1", "mnemonic"), ("2", "unit"), ("3", "value"), ("4", "descr")}
     if fields != want_f:
         problems.append("item cells are %s, expected mnemonic, unit, value, descr in columns 1-4" % sorted(fields))
     # row counter increments once per item
-    incs = [s for s in ast.walk(fi.node) if isinstance(s, ast.AugAssign) and isinstance(s.target, ast.Name) and s.target.id == "n"]
-    if len(incs) != 1 or not (isinstance(incs[0].value, ast.Constant) and incs[0].value.value == 1):
+    incs = [s for s in ast.walk(fi.node) if isinstance(s, ast.AugAssign) and isinstance(s.target, ast.Name) and s.target.id == counter]
+    if counter is not None and (len(incs) != 1 or not (isinstance(incs[0].value, ast.Constant) and incs[0].value.value == 1)):
         problems.append("the header row counter does not advance by one per item")
     # curves sheet: inside `for <j>, <value> in enumerate(curve.data)`: NaN branch writes "", other branch writes <value>
     inner = [l for l in ast.walk(fi.node) if isinstance(l, ast.For) and isinstance(l.iter, ast.Call) and "enumerate" in ast.unparse(l.iter.func)
@@ -407,18 +606,18 @@ def rule_xlsx(ctx):
     else:
         lp = inner[0]
         val = lp.target.elts[1].id if isinstance(lp.target, ast.Tuple) and isinstance(lp.target.elts[1], ast.Name) else None
-        ifs = [x for x in ast.walk(lp) if isinstance(x, ast.If)]
         okcell = False
-        for iff in ifs:
-            def written(block):
-                out = []
-                for st in block:
-                    for c in ast.walk(st):
-                        if isinstance(c, ast.Call) and isinstance(c.func, ast.Name) and c.func.id == "write_cell" and len(c.args) == 4:
-                            out.append(c.args[3])
-                return out
+
+        def written(block):
+            return [c.args[3] for st in block for c in ast.walk(st) if is_write(c)]
+        for iff in [x for x in ast.walk(lp) if isinstance(x, ast.If)]:
             a, b = written(iff.body), written(iff.orelse)
             if len(a) == 1 and len(b) == 1 and isinstance(a[0], ast.Constant) and a[0].value == "" and isinstance(b[0], ast.Name) and b[0].id == val:
+                okcell = True
+        for v in written(lp.body):
+            # conditional-expression form: write(..., "" if <nan test> else value)
+            if isinstance(v, ast.IfExp) and "nan" in ast.unparse(v.test).lower() and isinstance(v.body, ast.Constant) and v.body.value == "" \
+                    and isinstance(v.orelse, ast.Name) and v.orelse.id == val:
                 okcell = True
         if not okcell:
             problems.append("a sample is not written as '' when NaN and as the sample itself otherwise")
